@@ -133,14 +133,22 @@ class Check(PropertyCheck):
                   "headers_is_multidict_instance (the tied Headers model IS the generic _MultiDict at _kconv=lower, "
                   "_reduce_values=join), multidict_laws / multidict_iter_len_insert / multidict_fresh_key (the laws for ANY _kconv, "
                   "hence MultiDict and MultiDictView), view_carries_over and view_run_refines (any call history on a MultiDictView "
-                  "equals the history on a free-standing MultiDict, PROVIDED getter(setter(fs)) = fs). HTTP/1: "
+                  "equals the history on a free-standing MultiDict, PROVIDED getter(setter(fs)) = fs), view_run_refines_inv (the law "
+                  "is only needed on an invariant the calls preserve) and request_cookies_view_refines (request.cookies over ANY "
+                  "Cookie header values, any history of calls whose new keys are cookie names: the fields stay inside the class "
+                  "C34's cookie codec round-trips, so the view IS a MultiDict on the parsed cookies; its two hypotheses are C34's "
+                  "theorems, discharged in Lemmas/C35Cookie.lean). Constructor: ctor_typeerror_iff (TypeError exactly when a name "
+                  "or value in `fields` is not bytes). HTTP/1: "
                   "parsed_headers_roundtrip / reparse_stable (no validity hypothesis: whatever _read_headers accepts, obs-fold "
                   "included, re-serialises and re-parses to itself) and http1_roundtrip(_general): for every field "
                   "list with non-empty colon-free LF-free names not starting with SP/HTAB and LF-free values without "
                   "leading/trailing SP/HTAB/CR/LF (a superset of RFC-valid fields) _read_headers(lines(bytes(h))) returns "
                   "exactly the fields. The model (API layer incl. Headers(fields, **kwargs), codec, parser) is tied to the real "
                   "code by running identical call sequences and comparing every returned str code point by code point, every "
-                  "exception class and all fields tuples after every step.")
+                  "exception class and all fields tuples after every step; kind `view` drives real MultiDict, MultiDictView over a "
+                  "plain parent, request.query and request.cookies against the generic model (request.cookies against the composed "
+                  "model generic _MultiDict + C34 cookie codec, Cookie header values compared too); kind `ctor` drives "
+                  "Headers(fields, **kwargs) with str/bytes fields.")
     level_note = ("trusted: Lean kernel; the model/implementation tie is differential (exhaustive over a 13-mutator alphabet up to "
                   "depth 3 quick / 4 thorough, codec exhaustive on all 1-byte and all <=3-byte strings over the utf-8 boundary "
                   "alphabet, random beyond). The decoder exists in two transcriptions, byte-at-a-time (`native`) and CPython's "
@@ -155,11 +163,15 @@ class Check(PropertyCheck):
                   "(catches seed c35-1) and leaves their position free; the exact placement is proved about the model "
                   "(touched_spelling) and enforced by the tie. Calls with unencodable str arguments are outside the statement: "
                   "the oracle demands UnicodeEncodeError and unchanged fields, the model predicts the partial effect of update. "
-                  "MultiDictView (request.query / cookies / urlencoded_form): the generic _MultiDict model and its laws are proved "
-                  "for every _kconv and the view theorems state exactly what carries over; their hypothesis getter(setter(fs)) = fs "
-                  "is the parent's codec round trip (property C34, which has recorded failures) and is NOT derived here; the view "
-                  "instance is not tied differentially in this check (only the Headers instance is, via headers_is_multidict_"
-                  "instance). Not modelled: Headers.__init__'s TypeError for non-bytes fields (typing).")
+                  "MultiDictView: the generic _MultiDict model is now tied at _kconv = id on MultiDict, a MultiDictView over a plain "
+                  "parent (arbitrary str keys/values), request.query and request.cookies. For request.cookies the getter/setter law "
+                  "is C34's proved cookie round trip (Props/C35.lean states the two C34 theorems as hypotheses so that this check "
+                  "does not build another property's proof file; Lemmas/C35Cookie.lean instantiates them, it is outside this "
+                  "check's axiom audit). For request.query the law stays a hypothesis: urllib's urlencode/parse_qsl are not "
+                  "transcribed (the query cases use alphanumeric keys/values, compared with the identity-parent model). The `view` "
+                  "oracle applies the multimap laws with exact keys; this is the sibling classes' contract, not a clause of C35's "
+                  "statement. Response.cookies (values are (value, attrs) tuples) and urlencoded_form/multipart_form views are not "
+                  "driven here (C34).")
     technique = ("Lean 4 proof (refinement to an abstract ordered multimap at byte and at str/API level, induction over fields/op "
                  "sequences; utf-8/surrogateescape codec round trip) + exhaustive/random call-sequence correspondence with the "
                  "real Headers class, _native/_always_bytes and _read_headers")
@@ -169,7 +181,10 @@ class Check(PropertyCheck):
             "bytes, as the str _native gives, or as arbitrary str incl. lone surrogates; 15% constructed with **kwargs. "
             "str/enc cases: all 1-byte strings, all 2- and 3-byte strings over the utf-8 boundary alphabet, random soups; code "
             "point lists around every encoder boundary. rt cases: RFC-valid field lists (70%), single-byte mutations (20%), "
-            "raw (10%). rd cases: random line lists incl. empty lines, continuation lines, missing colon. distinct = distinct "
+            "raw (10%). rd cases: random line lists incl. empty lines, continuation lines, missing colon. view cases (own random "
+            "stream, 1 in 10): every <=2-mutator sequence from a 9-op alphabet on each of MultiDict / MultiDictView(holder) / "
+            "request.query / request.cookies, then random histories of <=8 calls; ctor cases (1 in 40): fields with str or bytes "
+            "entries, optional kwargs. distinct = distinct "
             "case; non-trivial = at least one mutating op or kwargs (seq) / non-empty input (others).")
     budget = {"quick": 23000, "thorough": 660000}
     time_budget = {"quick": 15, "thorough": 420}
@@ -188,6 +203,11 @@ class Check(PropertyCheck):
         "mitmproxy.http:Headers.get_all", "mitmproxy.http:Headers.set_all", "mitmproxy.http:Headers.insert",
         "mitmproxy.http:Headers.items", "mitmproxy.http:_native", "mitmproxy.http:_always_bytes",
         "mitmproxy.utils.strutils:always_bytes",
+        "mitmproxy.coretypes.multidict:MultiDict._reduce_values", "mitmproxy.coretypes.multidict:MultiDict._kconv",
+        "mitmproxy.coretypes.multidict:MultiDictView.__init__", "mitmproxy.coretypes.multidict:MultiDictView._kconv",
+        "mitmproxy.coretypes.multidict:MultiDictView._reduce_values", "mitmproxy.coretypes.multidict:MultiDictView.fields",
+        "mitmproxy.http:Request._get_cookies", "mitmproxy.http:Request._set_cookies",
+        "mitmproxy.http:Request._get_query", "mitmproxy.http:Request._set_query",
         "mitmproxy.net.http.http1.read:_read_headers",
     ]
     trusted_base = ["CPython bytes.lower/strip/split/join, tuple slicing and collections.abc.MutableMapping mixins as the "
